@@ -153,14 +153,51 @@ def _has_ticket(t):
     return rv.contains_type(t, {"ticket"})
 
 
+
+
+def _forged():
+    """Literals / packed bytes that would bring a ticket into existence without TICKET: every one of them is ill-typed in Michelson
+    (ticket-bearing types are neither pushable nor packable) and must be refused."""
+    tk = rv.T("ticket", TNAT)
+    lit = lambda amt: {"prim": "Pair", "args": [{"string": "KT1BEqzn5Wx8uJrZNvuS9DVHmLvG9td3fDLi"}, I(1), I(amt)]}  # noqa: E731
+    out = []
+    for amt in (100, 0):
+        out += [
+            [P("PUSH", tk, lit(amt))],
+            [P("PUSH", rv.T("pair", tk, TNAT), {"prim": "Pair", "args": [lit(amt), I(0)]})],
+            [P("PUSH", rv.T("pair", TNAT, tk), {"prim": "Pair", "args": [I(0), lit(amt)]})],
+            [P("PUSH", rv.T("option", tk), {"prim": "Some", "args": [lit(amt)]})],
+            [P("PUSH", rv.T("list", tk), [lit(amt)])],
+            [P("PUSH", rv.T("or", tk, TNAT), {"prim": "Left", "args": [lit(amt)]})],
+            [P("PUSH", rv.T("map", TNAT, tk), [{"prim": "Elt", "args": [I(0), lit(amt)]}])],
+            [P("PUSH", rv.T("pair", TNAT, rv.T("option", rv.T("pair", tk, TNAT))),
+               {"prim": "Pair", "args": [I(0), {"prim": "Some", "args": [{"prim": "Pair", "args": [lit(amt), I(0)]}]}]})],
+        ]
+        raw = rv.pack(rv.pair_t(rv.T("address"), TNAT, TNAT), (rv.from_micheline(rv.T("address"), {"string": "KT1BEqzn5Wx8uJrZNvuS9DVHmLvG9td3fDLi"}), (1, amt)))
+        out += [[P("PUSH", rv.T("bytes"), {"bytes": raw.hex()}), P("UNPACK", tk), UNWRAP],
+                [P("PUSH", rv.T("bytes"), {"bytes": rv.pack(rv.T("pair", rv.pair_t(rv.T("address"), TNAT, TNAT), TNAT),
+                                                            ((rv.from_micheline(rv.T("address"), {"string": "KT1BEqzn5Wx8uJrZNvuS9DVHmLvG9td3fDLi"}), (1, amt)), 0)).hex()}),
+                 P("UNPACK", rv.T("pair", tk, TNAT)), UNWRAP]]
+    return out
+
+
+_FORGED = []
+
+
+def forged():
+    if not _FORGED:
+        _FORGED.extend(_forged())
+    return _FORGED
+
+
 def free_atoms(types):
     """Instruction groups worth trying on a real stack whose item types (annotation-stripped Micheline) are `types`:
     mostly groups that apply to what is on top, so that long productive chains arise."""
     mint = [[P("PUSH", TNAT, I(5)), P("PUSH", TNAT, I(1)), P("TICKET"), UNWRAP], [P("PUSH", TNAT, I(3)), P("PUSH", TNAT, I(2)), P("TICKET"), UNWRAP],
             [P("PUSH", TNAT, I(4)), P("PUSH", TSTR, {"string": "c"}), P("TICKET"), UNWRAP], [P("PUSH", TNAT, I(5)), P("PUSH", TNAT, I(1)), P("TICKET")]]
     if not types:
-        return mint
-    a = list(mint[:2])
+        return mint * 3 + forged()
+    a = list(mint[:2]) + forged()[len(types) % 5::5]   # a few of them per menu: a refused instruction ends the history
     top = types[0]
     p = top["prim"]
     generic = [[P("DUP")], [P("DUP", I(1))], [P("SOME")], [P("LEFT", TNAT)], [P("PUSH", TNAT, I(0)), P("PAIR")], [P("PUSH", TNAT, I(0)), P("SWAP"), P("PAIR")],
@@ -210,6 +247,9 @@ def free_atoms(types):
               [P("UNPAIR"), P("DUP")], [P("DUP", I(1))]] * 2
     if p == "lambda":
         a += [[P("DUP")], [P("DUP"), P("PAIR")], [P("PUSH", rv.T("unit"), {"prim": "Unit"}), P("EXEC")], [P("DUP"), P("PUSH", rv.T("unit"), {"prim": "Unit"}), P("EXEC")]] * 2
+    if _has_ticket(top) and p in ("pair", "option", "list", "or", "map"):
+        # capturing a ticket-bearing value in a closure (which could then be copied and run twice): must be refused
+        a += [[P("LAMBDA", rv.T("pair", top, rv.T("unit")), top, [P("CAR")]), P("SWAP"), P("APPLY")]] * 3
     if len(types) >= 2:
         a += [[P("SWAP")], [P("PAIR")], [P("DUP", I(2))], [P("DIG", I(1))], [P("DIP", [P("DUP")])], [P("UPDATE", I(1))], [P("UPDATE", I(2))], [P("SWAP"), P("UPDATE", I(1))]]
         if _has_ticket(types[1]):
